@@ -114,14 +114,30 @@ theorem FormField.okB_sound {f : FormField} (h : f.okB = true) : f.ok := by
   intro e; rw [e] at h3; simp at h3
 
 def CookieItem.okB (c : CookieItem) : Bool :=
-  c.name.all isTockenChar && !c.name.isEmpty && c.name.head? != some 36 && c.value.all isTockenChar &&
+  c.name.all isTockenChar && !c.name.isEmpty && c.name.head? != some 36 &&
+  (match c.esc with
+   | none => c.value.all isTockenChar
+   | some fl => fl.length == c.value.length && (c.value.zip fl).all (fun p => !(p.1 == 34 || p.1 == 92) || p.2)) &&
   (c.sep == 59 || c.sep == 44) && c.ws.all (fun x => x == 32 || x == 9)
 
 theorem CookieItem.okB_sound {c : CookieItem} (h : c.okB = true) : c.ok := by
   simp only [CookieItem.okB, Bool.and_eq_true, List.all_eq_true, Bool.not_eq_true', bne_iff_ne, ne_eq,
     Bool.or_eq_true, beq_iff_eq] at h
   obtain ⟨⟨⟨⟨⟨h1, h2⟩, h3⟩, h4⟩, h5⟩, h6⟩ := h
-  refine ⟨h1, ?_, h3, h4, h5, h6⟩
-  intro e; rw [e] at h2; simp at h2
+  refine ⟨h1, ?_, h3, ?_, ?_, h5, h6⟩
+  · intro e; rw [e] at h2; simp at h2
+  · intro he
+    rw [he] at h4
+    simpa using h4
+  · intro fl he
+    rw [he] at h4
+    simp only [Bool.and_eq_true, beq_iff_eq, List.all_eq_true, Bool.or_eq_true, Bool.not_eq_true', Bool.or_eq_false_iff] at h4
+    refine ⟨h4.1, ?_⟩
+    intro p hp hq
+    rcases h4.2 p hp with h | h
+    · rcases hq with hq | hq
+      · rw [hq] at h; simp at h
+      · rw [hq] at h; simp at h
+    · exact h
 
 end Cppcms.C01
